@@ -17,10 +17,10 @@ DOM_SEL = bytes([5, 0, 0, 0])
 _keys = None
 
 
-def interop_keys(dh):
+def interop_keys(dh, n=40):
     global _keys
-    if _keys is None:
-        rc, out, err = sh([dh, "keys"])
+    if _keys is None or len(_keys) < n:
+        rc, out, err = sh([dh, "keys", str(max(n, 40))])
         if rc != 0:
             raise Broken("harness-keys", err[-1000:])
         _keys = [bytes.fromhex(l.split()[1]) for l in out.splitlines()]
@@ -168,11 +168,12 @@ class HistGen:
                 self.note_att(a, s, t)
         else:
             dom = None
-        nilroot = r.weighted([(None, 1), ("bbr", 1), ("src", 1), ("tgt", 1)]) if r.chance(0.03) else None
+        clean = self.opts.get("clean")
+        nilroot = r.weighted([(None, 1), ("bbr", 1), ("src", 1), ("tgt", 1)]) if (r.chance(0.03) and not clean) else None
         bbr = None if nilroot == "bbr" else root(r)
         sr = None if nilroot == "src" else root(r)
         tr = None if nilroot == "tgt" else root(r)
-        if r.chance(0.04):
+        if r.chance(0.04) and not clean:
             bbr = r.choice([b"\x01", bytes(31) + b"\x07", bytes(range(40)), b""])
         slot = r.choice([0, 1, t * 32 % TWO64, TWO64 - 1, r.below(1000)])
         cidx = r.choice([0, 1, 63, TWO64 - 1])
@@ -199,8 +200,36 @@ class HistGen:
             a = self.r.choice([x for x in self.accts if x.unlockable])
         return a
 
+    def clean_op(self):
+        """well-formed, authorised, fault-free requests only (C09 / C11)"""
+        r = self.r
+        good = [a for a in self.accts if a.unlockable and a.wallet == "Wallet 1"]
+        kind = r.weighted([("att", 40), ("atts", 30), ("prop", 20), ("restart", 4), ("export", 6)])
+        c = r.choice(["client1", "clientall"])
+        if kind == "att":
+            a = r.choice(good)
+            return "att %s - %s %s -" % (hx(c), self.addr(a, allow_both=False), self.att_data(a, "att"))
+        if kind == "atts":
+            n = r.weighted([(1, 1), (2, 4), (3, 4), (len(good), 3)])
+            picks = r.shuffle(good)[:n]
+            return "atts %s - - %s" % (hx(c), ";".join(self.addr(a, allow_both=False) + "," + self.att_data(a, "att") for a in picks))
+        if kind == "prop":
+            a = r.choice(good)
+            hs_ = self.hi_slot.get(a.pk, -1)
+            mode = r.weighted([("adv", 60), ("same", 15), ("lower", 12), ("edge", 5), ("zero", 8)])
+            slot = {"adv": hs_ + 1 + r.below(3), "same": max(hs_, 0), "lower": max(hs_ - 1 - r.below(3), 0),
+                    "edge": r.choice([TWO63 - 1, TWO63 - 2]), "zero": 0}[mode]
+            if slot <= TWO63 - 1 and slot > hs_:
+                self.hi_slot[a.pk] = slot
+            rt = root(r).hex()
+            return "prop %s - %s %s,%d,%d,%s,%s,%s -" % (hx(c), self.addr(a, allow_both=False), dom32(DOM_PROP, r).hex(), slot,
+                                                          r.choice([0, 7]), rt, root(r).hex(), root(r).hex())
+        return kind
+
     def op(self):
         r = self.r
+        if self.opts.get("clean"):
+            return self.clean_op()
         kind = r.weighted(self.opts.get("weights") or
                           [("att", 34), ("atts", 24), ("prop", 16), ("sign", 7), ("msign", 6), ("restart", 4),
                            ("export", 6), ("unknown", 3)])
